@@ -307,11 +307,51 @@ def run_record_end(rep, facts):
         rep.undecidable("R6.5", "parse_buffered/record-end-buffering", "outcome classes seen: %s" % cls, b.loc())
 
 
+def run_getvalues_consumption(rep, facts):
+    """R6.6: a partially received GetValues body is consumed pair by pair (only an incomplete trailing pair stays in the input buffer)."""
+    rep.rule("R6.6", "GetValuesState::drive, body incomplete: the name-value decoder runs over the bytes available so far and the consumed amount is "
+                     "len - (undecoded remainder); nothing waits in the input buffer for the rest of the record (maximal consumption per call)")
+    b, g, rows = rows_of(facts, "parser::request::GetValuesState::drive")
+    bad = []
+    n = 0
+    for r in rows:
+        if r.end != 'return' or r.ret is None:
+            continue
+        incomplete = None
+        for (e, lab) in nonconst_conds(r):
+            fact = ir.cmp_fact(e, lab)
+            if fact is not None and fact[0] in ('lt', 'le') and is_len_of(fact[1] if fact[0] == 'lt' else fact[2], lambda x: is_param(x, 'data')) \
+                    and self_field(fact[2] if fact[0] == 'lt' else fact[1], 'payload_rem'):
+                incomplete = (fact[0] == 'lt')      # data.len() < payload_rem   /  payload_rem <= data.len()
+        if incomplete is not True:
+            continue
+        n += 1
+        ret = ir.peel(r.ret)
+        tup = ir.peel(agg_field(ret, 0)) if ret[0] == 'agg' else None
+        rest = ir.peel(tup[3][0][1]) if tup is not None and tup[0] == 'agg' else None
+        nv = r.called("protocol::nv::NVIter::new")
+        ok = bool(nv) and rest is not None and rest[0] == 'call' and rest[1].endswith("index_mut")
+        if ok:
+            rng = ir.peel(rest[2][1])
+            start = ir.peel(dict(rng[3]).get('start')) if rng[0] == 'agg' and rng[2].endswith("RangeFrom") else None
+            # consumed = len - remaining, with `remaining` the decoder's undecoded tail
+            ok = start is not None and any(y[0] == 'call' and y[1].endswith("NVIter::into_inner") for y in ir.walk(start))
+        if not ok:
+            bad.append("an incomplete GetValues body is not consumed up to the decoder's undecoded remainder")
+    if bad:
+        rep.violation("R6.6", "getvalues-drive/partial-consumption", "; ".join(sorted(set(bad))), b.loc())
+    elif n:
+        rep.ok("R6.6", "getvalues-drive/partial-consumption", "data.len() < payload_rem => decode what is there, return data[len - remaining ..] (%d path(s))" % n, b.loc())
+    else:
+        rep.undecidable("R6.6", "getvalues-drive/partial-consumption", "no path with an incomplete body found", b.loc())
+
+
 def main(rep, tier):
     f = F.load(("async", "http"))
     rep.configs.append({"features": "async,http", "profile": "debug", "bodies": len(f.bodies)})
     check.guard(rep, "R6", run, f)
     check.guard(rep, "R6.4", run_record_end, f)
+    check.guard(rep, "R6.6", run_getvalues_consumption, f)
     rep.floor("R6", "rule instances", len([i for i in rep.instances if i["status"] == "ok"]), 9)
     return rep.finish(
         "Sentence 2 of the statement is decided outright as a path rule on request::Parser::parse (not done => room left, else StuckOnInput "
